@@ -308,6 +308,10 @@ func main() {
 	ctxFields := structFields(router, "Context")
 	serve := genServe(router, ctxFields)
 	ctx := genCtx(router, app, ctxFields)
+	consts := genConsts()
+	guards := genGuards(router, parseDir(filepath.Join(repoRoot, "router", "route")))
 	writeIfChanged(filepath.Join(outDir, "Serve.lean"), serve)
 	writeIfChanged(filepath.Join(outDir, "Ctx.lean"), ctx)
+	writeIfChanged(filepath.Join(outDir, "Consts.lean"), consts)
+	writeIfChanged(filepath.Join(outDir, "Guards.lean"), guards)
 }
